@@ -51,6 +51,17 @@ def run_case(cs):
     d = cs.dir()
     root = os.path.join(d, world.root_name(rng))
     world.write_tree(root, tree)
+    if rng.random() < 0.2:
+        # a second name for the same file (hard link): every name is an entry of its folder
+        fl = sorted(k for k, v in tree.items() if v is not None)
+        if fl:
+            src = rng.choice(fl)
+            par = rng.choice([""] + [k for k, v in tree.items() if v is None])
+            dst = (par + "/" if par else "") + "zz-hardlink-of-" + os.path.basename(src)[:30]
+            if dst not in tree:
+                os.link(os.path.join(root, src), os.path.join(root, dst))
+                tree[dst] = tree[src]
+                cs.count("trees_with_hard_links")
     subdirs = [x for x in tree if tree[x] is None]
     nested = rng.sample(subdirs, min(len(subdirs), rng.choice([0, 0, 1, 2])))
     child_first = rng.random() < 0.6
@@ -160,6 +171,9 @@ def run_case(cs):
     where = None
 
     def pick(cands):
+        hl = [x for x in cands if os.path.basename(x).startswith("zz-hardlink-of-")]
+        if hl and rng.random() < 0.7:
+            return rng.choice(hl)
         c = [x for x in cands if ("/" not in x) == at_root] or cands
         return rng.choice(c) if c else None
 
